@@ -1,0 +1,87 @@
+// Verification hooks. This module only exists when the crate is built with
+// `--cfg tarpc_verif`; without that flag nothing in here is compiled and the crate behaves
+// exactly as shipped.
+
+//! Seams for deterministic simulation: an injectable clock, cooperative yield points and an
+//! atomic counter shim whose operations are preceded by a yield point.
+
+#![allow(missing_docs)]
+
+use std::{cell::Cell, sync::atomic::Ordering, time::Instant};
+
+thread_local! {
+    static CLOCK: Cell<Option<fn() -> Instant>> = const { Cell::new(None) };
+    static YIELD: Cell<Option<fn(&'static str)>> = const { Cell::new(None) };
+}
+
+/// Installs (or removes) the clock used by this thread in place of `Instant::now()`.
+pub fn set_clock(f: Option<fn() -> Instant>) {
+    CLOCK.with(|c| c.set(f));
+}
+
+/// The current instant according to the installed clock, `Instant::now()` when none is.
+pub fn now() -> Instant {
+    match CLOCK.with(|c| c.get()) {
+        Some(f) => f(),
+        None => Instant::now(),
+    }
+}
+
+/// Installs (or removes) the callback invoked at yield points on this thread.
+pub fn set_yield(f: Option<fn(&'static str)>) {
+    YIELD.with(|c| c.set(f));
+}
+
+/// A point at which a simulator may run other tasks. No-op when no callback is installed.
+pub fn yield_point(site: &'static str) {
+    if let Some(f) = YIELD.with(|c| c.get()) {
+        f(site)
+    }
+}
+
+/// `std::sync::atomic::AtomicUsize` with a yield point in front of every operation, so that a
+/// simulator can interleave other tasks between two operations on the same counter.
+#[derive(Debug, Default)]
+pub struct AtomicUsize(std::sync::atomic::AtomicUsize);
+
+impl AtomicUsize {
+    pub const fn new(v: usize) -> Self {
+        Self(std::sync::atomic::AtomicUsize::new(v))
+    }
+
+    pub fn load(&self, order: Ordering) -> usize {
+        yield_point("atomic:load");
+        self.0.load(order)
+    }
+
+    pub fn store(&self, v: usize, order: Ordering) {
+        yield_point("atomic:store");
+        self.0.store(v, order)
+    }
+
+    pub fn swap(&self, v: usize, order: Ordering) -> usize {
+        yield_point("atomic:swap");
+        self.0.swap(v, order)
+    }
+
+    pub fn fetch_add(&self, v: usize, order: Ordering) -> usize {
+        yield_point("atomic:fetch_add");
+        self.0.fetch_add(v, order)
+    }
+
+    pub fn fetch_sub(&self, v: usize, order: Ordering) -> usize {
+        yield_point("atomic:fetch_sub");
+        self.0.fetch_sub(v, order)
+    }
+
+    pub fn compare_exchange(
+        &self,
+        current: usize,
+        new: usize,
+        success: Ordering,
+        failure: Ordering,
+    ) -> Result<usize, usize> {
+        yield_point("atomic:compare_exchange");
+        self.0.compare_exchange(current, new, success, failure)
+    }
+}
